@@ -92,6 +92,7 @@ package encoding
 //@   witness L = from(string(wireKV(bl)), len(bl.Key) + 1)
 //@   ensures[C03] @framed imp(err == nil, string(d) == cat(wireKV(bs), SOH, wireKV(bl), SOH, R, wireKV(cs), SOH))
 //@   ensures[C03] @fields imp(err == nil, hasPrefix(string(wireKV(bs)), cat(tagBS(msg), "=")) && hasPrefix(string(wireKV(bl)), cat(tagBL(msg), "=")) && hasPrefix(string(wireKV(cs)), cat(tagCS(msg), "=")))
+//@   ensures[C03] @beginstring imp(err == nil && mBeginKV(msg) != nil && mBeginKV(msg).Value != nil && !nullV(mBeginKV(msg).Value), string(wireV(bs.Value)) == string(wireV(mBeginKV(msg).Value)))
 //@   ensures[C03] @length imp(err == nil, isint(L) && atoi(L) == len(R))
 //@   ensures[C03] @checksum imp(err == nil, from(string(wireKV(cs)), len(cs.Key) + 1) == digits3(bsum(sub(string(d), 0, pos)) % 256))
 //@   lemma wireV_raw(bs.Value); wireV_raw(bl.Value); wireV_raw(cs.Value); bsum_snoc(string(d), pos - 1); bsum_nonneg(sub(string(d), 0, pos - 1))
@@ -112,3 +113,8 @@ package encoding
 //@     witness innerErr = ret
 //@     assert[C03] @sameinput arg1 == msg && string(arg2) == string(d)
 //@   ensures[C03] @viaUnmarshal imp(err == nil, innerErr == nil)
+
+// Not decided deductively: the composed inverse over nested templates (C02 (c)). A bounded
+// stand-in (random templates and populations within a stated bound, /verif/bounded) runs
+// with the check and is reported as bounded, never as proved.
+//@ bounded[C02] c02_roundtrip: unmarshalItems(template, serialize(m)) succeeds and re-serializes to the same bytes, over nested templates
